@@ -69,3 +69,115 @@ Proof.
       * right. exists (S i), u', off. cbn [nth_error]. split; auto. split; auto.
         rewrite C, T1. unfold in_start. cbn [firstn fold_right]. lia.
 Qed.
+
+(* ---- the invariant *)
+
+Definition sat_at (E : list (N * ientry)) (rs : list (N * N)) (s off : N) : Prop :=
+  forall e n, tgN s E = Some e -> i_sat e = Some n -> calc_sat_in rs 0 off = Ok n.
+
+Definition eranges (lostr : list (N * N)) (op : outpoint) (u : uentry) : list (N * N) :=
+  if is_null op then u_ranges u ++ lostr else u_ranges u.
+
+Definition entry_at (op : outpoint) (U : list (outpoint * uentry)) : uentry :=
+  match tgP op U with Some e => e | None => empty_entry end.
+
+Definition EntInv (E : list (N * ientry)) (U : list (outpoint * uentry)) (lostr : list (N * N)) : Prop :=
+  forall op u, In (op, u) U -> op <> unbound_op ->
+    forall s off, In (s, off) (u_insc u) -> sat_at E (eranges lostr op u) s off.
+
+Definition KeyU (E : list (N * ientry)) (U : list (outpoint * uentry)) : Prop :=
+  forall op u s off, In (op, u) U -> In (s, off) (u_insc u) -> tgN s E <> None.
+
+(* entries only grow, and an existing entry keeps its sat *)
+Definition Ext (E E' : list (N * ientry)) : Prop :=
+  forall s e, tgN s E = Some e -> exists e', tgN s E' = Some e' /\ i_sat e' = i_sat e.
+
+Lemma sat_at_ext : forall E E' rs s off, Ext E E' -> tgN s E <> None -> sat_at E rs s off -> sat_at E' rs s off.
+Proof.
+  intros E E' rs s off HX Hk H e' n He' Hn. destruct (tgN s E) as [e|] eqn:Q; [|congruence].
+  destruct (HX s e Q) as (e2 & A & B). rewrite He' in A. inv A. apply (H e n); auto. congruence.
+Qed.
+
+Lemma new_sat_shape : forall h rs f sp o b b' c fee hid ps re ub vi,
+  f_origin f = ONew c fee hid ps re ub vi ->
+  update_location h (Some rs) f sp o b = Ok b' ->
+  exists e, s_entries (b_st b') = tset N.eqb (b_next b) e (s_entries (b_st b)) /\
+    (ub = true -> i_sat e = None) /\
+    (forall n, i_sat e = Some n -> calc_sat_in rs 0 (f_offset f) = Ok n).
+Proof.
+  intros h rs f sp o b b' c fee hid ps re ub vi Ho H.
+  unfold update_location in H. rewrite Ho in H.
+  dbind H. destruct a as [[number bl] cu]. dbind H. rename a into sat. dbind H. destruct a as [st1 pseqs].
+  apply link_parents_core in E1. destruct E1 as (L1 & _). cbn [s_entries] in L1.
+  assert (Hs : (ub = true -> sat = None) /\ (forall n, sat = Some n -> calc_sat_in rs 0 (f_offset f) = Ok n)).
+  { destruct ub; [inv E0; split; auto; discriminate|]. split; [discriminate|].
+    cbn in E0. destruct (calc_sat_in rs 0 (f_offset f)) eqn:Q; cbn in E0; inv E0. intros n Hn. inv Hn. reflexivity. }
+  destruct ub; inv H; cbn [b_st s_entries]; rewrite L1; eexists; (split; [reflexivity|]); cbn [i_sat]; exact Hs.
+Qed.
+
+Lemma Ext_step : forall h rg f sp o b b',
+  DomIff (b_next b) (s_entries (b_st b)) ->
+  update_location h rg f sp o b = Ok b' -> Ext (s_entries (b_st b)) (s_entries (b_st b')).
+Proof.
+  intros h rg f sp o b b' D H s e He. destruct (f_origin f) as [c fee hid ps re ub vi|seq] eqn:Ho.
+  - destruct (update_new_shape _ _ _ _ _ _ _ _ _ _ _ _ _ _ Ho H) as (e0 & [S1 S2 S3 S4 S5 _ _ _ _ _ _ _]).
+    rewrite S5. exists e. rewrite tgN_set. destruct (N.eqb_spec s (b_next b)); auto.
+    subst. exfalso. assert (b_next b < b_next b) by (apply D; congruence). lia.
+  - destruct (update_old_shape _ _ _ _ _ _ _ _ Ho H) as (_ & _ & _ & _ & _ & _ & _ & [O8|(e0 & He0 & O8)]); rewrite O8; eauto.
+    rewrite tgN_set. destruct (N.eqb_spec s seq); eauto. subst. rewrite He0 in He. inv He. eexists. split; [reflexivity|]. reflexivity.
+Qed.
+
+Lemma In_push : forall op s off U op' u',
+  In (op', u') (push_insc op s off U) ->
+  In (op', u') U \/
+  (op' = op /\ u_ranges u' = u_ranges (entry_at op U) /\
+   forall p, In p (u_insc u') -> p = (s, off) \/ (In p (u_insc (entry_at op U)) /\ (tgP op U <> None))).
+Proof.
+  intros op s off U op' u' H. unfold push_insc in H. apply In_tset in H. destruct H as [H|H]; auto.
+  inv H. right. unfold entry_at. split; auto. split; auto. cbn [u_insc]. intros p Hp.
+  apply in_app_or in Hp. destruct Hp as [Hp|[Hp|[]]]; auto. right. split; auto.
+  destruct (tgP op U); [discriminate|]. cbn in Hp. contradiction.
+Qed.
+
+(* one application of update_inscription_location *)
+Lemma step_sat : forall h rs f sp o b b' lostr,
+  DomIff (b_next b) (s_entries (b_st b)) ->
+  EntInv (s_entries (b_st b)) (s_utxo (b_st b)) lostr -> KeyU (s_entries (b_st b)) (s_utxo (b_st b)) ->
+  (forall s, f_origin f = OOld s -> tgN s (s_entries (b_st b)) <> None /\ sat_at (s_entries (b_st b)) rs s (f_offset f)) ->
+  (fst sp <> unbound_op -> forall n, calc_sat_in rs 0 (f_offset f) = Ok n ->
+     calc_sat_in (eranges lostr (fst sp) (entry_at (fst sp) (s_utxo (b_st b)))) 0 (snd sp) = Ok n) ->
+  update_location h (Some rs) f sp o b = Ok b' ->
+  EntInv (s_entries (b_st b')) (s_utxo (b_st b')) lostr /\ KeyU (s_entries (b_st b')) (s_utxo (b_st b')).
+Proof.
+  intros h rs f sp o b b' lostr D HE HK FS TS H.
+  pose proof (Ext_step _ _ _ _ _ _ _ D H) as HX.
+  destruct (update_utxo_shape _ _ _ _ _ _ _ H) as (op & s & off & U & Hc). rewrite U.
+  assert (Hkey : forall x, tgN x (s_entries (b_st b)) <> None -> tgN x (s_entries (b_st b')) <> None).
+  { intros x Hx. destruct (tgN x (s_entries (b_st b))) as [e|] eqn:Q; [|congruence]. destruct (HX x e Q) as (e' & A & _). congruence. }
+  assert (Hnew : tgN s (s_entries (b_st b')) <> None /\
+                 (op <> unbound_op -> sat_at (s_entries (b_st b')) (eranges lostr op (entry_at op (s_utxo (b_st b)))) s off)).
+  { destruct Hc as [(seq & A1 & A2 & A3 & A4)|(A1 & A2 & A3 & A4)].
+    - subst s. destruct (FS seq A1) as [F1 F2]. split; auto. intro Hne. inv A4. cbn [fst snd] in TS.
+      intros e n He Hn. apply TS; auto. destruct (tgN seq (s_entries (b_st b))) as [e0|] eqn:Q; [|congruence].
+      destruct (HX seq e0 Q) as (e' & B1 & B2). rewrite He in B1. inv B1. apply (F2 e0 n); auto. congruence.
+    - unfold is_new in A1. destruct (f_origin f) as [c fee hid ps re ub vi|] eqn:Ho; [|discriminate].
+      destruct (new_sat_shape _ _ _ _ _ _ _ _ _ _ _ _ _ _ Ho H) as (e0 & N1 & N2 & N3). subst s.
+      split; [rewrite N1, tgN_set, N.eqb_refl; discriminate|].
+      intros Hne e n He Hn. rewrite N1, tgN_set, N.eqb_refl in He. inv He.
+      destruct A4 as [A4|A4]; [|contradiction]. inv A4. cbn [fst snd] in TS. apply TS; auto. }
+  destruct Hnew as [Hn1 Hn2]. split.
+  - intros op' u' Hin Hne s' off' Hp. apply In_push in Hin. destruct Hin as [Hin|(-> & R & Hps)].
+    + eapply sat_at_ext; [exact HX | eapply HK; eauto | eapply HE; eauto].
+    + assert (Q : eranges lostr op u' = eranges lostr op (entry_at op (s_utxo (b_st b)))) by (unfold eranges; rewrite R; reflexivity).
+      rewrite Q. destruct (Hps _ Hp) as [Hq|[Hq Hq2]].
+      * inv Hq. apply Hn2. exact Hne.
+      * unfold entry_at in *. destruct (tgP op (s_utxo (b_st b))) as [e0|] eqn:T; [|congruence].
+        assert (Hin0 : In (op, e0) (s_utxo (b_st b))) by (eapply tget_In; [exact pair_eqb_eq|exact T]).
+        eapply sat_at_ext; [exact HX | eapply HK; eauto | eapply HE; eauto].
+  - intros op' u' s' off' Hin Hp. apply In_push in Hin. destruct Hin as [Hin|(-> & R & Hps)].
+    + apply Hkey. eapply HK; eauto.
+    + destruct (Hps _ Hp) as [Hq|[Hq Hq2]].
+      * inv Hq. exact Hn1.
+      * unfold entry_at in *. destruct (tgP op (s_utxo (b_st b))) as [e0|] eqn:T; [|congruence].
+        apply Hkey. eapply (HK op e0); eauto. eapply tget_In; [exact pair_eqb_eq|exact T].
+Qed.
